@@ -56,7 +56,7 @@ REQUIRED = {
     "C03": ["exec.reader", "exec.cursor", "exec.decoder", "exec.readto", "exec.filter", "exec.iter", "exec.push", "exec.entry.stream", "exec.entry.iter",
             "crossmode_comparisons", "faults.channel_fired", "boundary.json.after_backslash", "boundary.json.inside_utf8", "boundary.json.between_surrogates",
             "boundary.json.after_exp", "boundary.csv.after_cr", "boundary.cbor.binary", "boundary.bson.binary", "boundary.msgpack.binary", "boundary.ubjson.binary"],
-    "C05": ["exec.reader", "exec.cursor", "exec.decoder", "exec.push", "exec.sink", "faults.sink_failure_fired", "sink.big_documents",
+    "C05": ["exec.reader", "exec.cursor", "exec.decoder", "exec.push", "exec.sink", "faults.sink_failure_fired", "faults.sink_failure_with_stream_exceptions", "faults.prefix_consistency_cut", "reach.prefix_is_complete_item", "sink.big_documents",
             "faults.stream_failure_kind1_fired", "faults.stream_failure_kind2_fired", "faults.stream_failure_kind3_fired", "faults.channel_fired",
             "faults.truncation_of_valid_document", "faults.truncation_of_valid_json_text", "reach.truncated_top_level_number", "plans.toon", "plans.json", "plans.csv", "plans.cbor", "plans.bson", "plans.msgpack", "plans.ubjson"],
     "C10": ["claim_checks", "faults.claim_and_starve_fired", "limit_checks", "exec.encoder_nest", "exec.reader", "exec.cursor", "exec.decoder", "exec.iter",
